@@ -1,6 +1,152 @@
 package main
 
-func cmdSelftest(args []string) int { return 0 }
+import (
+	"encoding/json"
+	"flag"
+	"fmt"
+	"os"
+	"path/filepath"
+	"sort"
+	"strings"
+	"sync"
+)
+
+// Mutant: an in-memory edit of one repository file (applied through packages.Config.Overlay, no copy of the
+// repository is made). expect: substring of an obligation name that must fail, or "pass" for harmless edits.
+type Mutant struct {
+	Name    string `json:"name"`
+	File    string `json:"file"`
+	Find    string `json:"find"`
+	Replace string `json:"replace"`
+	Expect  string `json:"expect"`
+	Why     string `json:"why"`
+	Edits   []struct {
+		File    string `json:"file"`
+		Find    string `json:"find"`
+		Replace string `json:"replace"`
+	} `json:"edits"`
+}
+
+func cmdSelftest(args []string) int {
+	fs := flag.NewFlagSet("selftest", flag.ExitOnError)
+	repo := fs.String("repo", "/repo", "")
+	verif := fs.String("verif", "/verif", "")
+	par := fs.Int("j", 4, "parallel mutants")
+	fs.Parse(args)
+	var props []string
+	if fs.NArg() > 0 {
+		props = fs.Args()
+	} else {
+		ds, _ := filepath.Glob(filepath.Join(*verif, "mutants", "C*"))
+		for _, d := range ds {
+			props = append(props, filepath.Base(d))
+		}
+	}
+	sort.Strings(props)
+	bad := 0
+	total := 0
+	var mu sync.Mutex
+	for _, prop := range props {
+		files, _ := filepath.Glob(filepath.Join(*verif, "mutants", prop, "*.json"))
+		sort.Strings(files)
+		var wg sync.WaitGroup
+		sem := make(chan struct{}, *par)
+		for _, f := range files {
+			f := f
+			wg.Add(1)
+			sem <- struct{}{}
+			go func() {
+				defer wg.Done()
+				defer func() { <-sem }()
+				ok, msg := runMutant(*repo, *verif, prop, f)
+				mu.Lock()
+				total++
+				if !ok {
+					bad++
+				}
+				status := "ok  "
+				if !ok {
+					status = "FAIL"
+				}
+				fmt.Printf("%s %s %s: %s\n", status, prop, filepath.Base(f), msg)
+				mu.Unlock()
+			}()
+		}
+		wg.Wait()
+	}
+	fmt.Printf("selftest: %d mutants, %d unexpected\n", total, bad)
+	if bad > 0 {
+		return 1
+	}
+	return 0
+}
+
+func runMutant(repo, verif, prop, file string) (bool, string) {
+	data, err := os.ReadFile(file)
+	if err != nil {
+		return false, err.Error()
+	}
+	var m Mutant
+	if err := json.Unmarshal(data, &m); err != nil {
+		return false, err.Error()
+	}
+	overlay := map[string][]byte{}
+	apply := func(f, find, repl string) error {
+		path := filepath.Join(repo, f)
+		src, ok := overlay[path]
+		if !ok {
+			src, err = os.ReadFile(path)
+			if err != nil {
+				return err
+			}
+		}
+		if strings.Count(string(src), find) != 1 {
+			return fmt.Errorf("pattern occurs %d times in %s (want exactly 1)", strings.Count(string(src), find), f)
+		}
+		overlay[path] = []byte(strings.Replace(string(src), find, repl, 1))
+		return nil
+	}
+	if m.File != "" {
+		if err := apply(m.File, m.Find, m.Replace); err != nil {
+			return false, "mutant does not apply: " + err.Error()
+		}
+	}
+	for _, e := range m.Edits {
+		if err := apply(e.File, e.Find, e.Replace); err != nil {
+			return false, "mutant does not apply: " + err.Error()
+		}
+	}
+	out := runCheck(checkOpts{prop: prop, tier: "quick", repo: repo, verif: verif, overlay: overlay, quiet: true, noEvidence: true, workers: 4, mutantTag: strings.TrimSuffix(filepath.Base(file), ".json")})
+	var failed []string
+	for _, r := range out.Results {
+		if !r.OK {
+			failed = append(failed, r.O.Name)
+		}
+	}
+	for _, v := range out.Violations {
+		if strings.Contains(v, "not generated") || !strings.Contains(v, "obligation=") {
+			continue
+		}
+	}
+	if m.Expect == "pass" {
+		if out.Exit == 0 {
+			return true, "harmless edit accepted"
+		}
+		return false, fmt.Sprintf("harmless edit raised an alarm (exit %d): %v %v", out.Exit, failed, out.EngineErrs)
+	}
+	if out.Exit == 2 && len(out.Violations) == 0 {
+		return false, fmt.Sprintf("engine error instead of violation: %v", out.EngineErrs)
+	}
+	for _, v := range out.Violations {
+		if strings.Contains(v, m.Expect) {
+			return true, fmt.Sprintf("killed by %s (%d obligations failed)", m.Expect, len(out.Violations))
+		}
+	}
+	if len(out.Violations) > 0 {
+		return false, fmt.Sprintf("killed, but not by the expected obligation %q: %v", m.Expect, failed)
+	}
+	return false, "SURVIVED (no obligation failed)"
+}
 
 func tryReplay(o checkOpts, r *ObligResult, p *Prog, base string, model map[string]string) (bool, string, string) {
 	return false, "", ""
